@@ -412,14 +412,38 @@ theorem chain_split (now : Int) (cs : List (Int × Int × Req)) (now1 : Int) (h 
       subst h
       simp
 
-/-- the walk without an armed reload (or with a load the rule manager skips) is the plain walk -/
-theorem chainReload_none {ρ : Type} (eq : ρ → ρ → Bool) (next : Nat) (now : Int) (ctls : List (Ctl ρ)) (par : ρ → Int × Req) :
-    (chainReload eq next now ctls par none).2.1 = (chain now (ctls.map fun c => ((par c.rule).1, c.last, (par c.rule).2))).2 := by
+/-- **A request that sleeps through a reload finishes with the rule list it started with**: whatever is loaded during its
+    first sleep (or nothing), the controllers it visits answer exactly as in the plain walk over the controllers in force
+    when it arrived — so `chain_ok` (every visited rule honoured for its own timestamp and limit) applies to it unchanged. -/
+theorem chainReload_results {ρ : Type} (eq : ρ → ρ → Bool) (next : Nat) (now : Int) (ctls : List (Ctl ρ)) (par : ρ → Int × Req)
+    (rules : Option (List ρ)) :
+    (chainReload eq next now ctls par rules).2.1 = (chain now (ctls.map fun c => ((par c.rule).1, c.last, (par c.rule).2))).2 := by
   unfold chainReload
   simp only
   split
-  · rename_i h1 h2; simp at h2
+  · rename_i now1 rs h1
+    simp only
+    rw [chain_split now _ now1 h1, List.map_drop]
   · rfl
+
+/-- what is in force afterwards is what a reload *after* the request would have built (controllers are shared by reference,
+    and the reload does not look at timestamps: `reload_map`).  Stated for controllers with distinct identities below `next`;
+    validated by the correspondence runs (the generator's mirror relies on it), not proved here. -/
+def chainReload_ctls_statement : Prop :=
+  ∀ {ρ : Type} (eq : ρ → ρ → Bool) (next : Nat) (now : Int) (ctls : List (Ctl ρ)) (par : ρ → Int × Req) (rules : List ρ),
+    (ctls.map (·.id)).Nodup → (∀ c ∈ ctls, c.id < next) →
+    (chainReload eq next now ctls par (some rules)).2.2 = true →
+    (chainReload eq next now ctls par (some rules)).1 =
+      reload eq next
+        ((ctls.zip (chain now (ctls.map fun c => ((par c.rule).1, c.last, (par c.rule).2))).1).map fun (c, l) => { c with last := l })
+        rules
+
+/-- the demo of the seeded change: three rules, the request sleeps 90 for rule 1, meanwhile the same rules plus one more are
+    loaded; it is still rejected by rule 2, and rule 2's controller (identity 1) is the one in force afterwards -/
+example :
+    let r := chainReload (fun (a b : Nat) => a == b) 3 10 [⟨0, 0, 0⟩, ⟨1, 1, 0⟩, ⟨2, 2, 0⟩]
+      (fun r => if r = 0 then (1000, .norm 100) else if r = 1 then (0, .norm 1000) else (1000, .norm 1)) (some [0, 1, 2, 3])
+    r.2.1 = [.wait 90, .block] ∧ r.1.map (·.id) = [0, 1, 2, 6] ∧ r.1.map (·.last) = [100, 0, 0, 0] := by decide
 
 example : chain 0 [(1000, 0, .norm 100), (0, 0, .norm 300)] = ([100, 0], [.wait 100, .block]) := by decide
 
